@@ -3,7 +3,7 @@
 import json, os, re
 V = os.path.dirname(os.path.dirname(os.path.abspath(__file__)))
 res = {}
-for line in open(os.path.join(V, "seeded", "RESULTS.tsv")):
+for line in open(os.path.join(V, "seeded", "RESULTS.tsv"), errors="replace"):
     f = line.rstrip("\n").split("\t")
     if len(f) >= 5:
         res[f[0]] = f
